@@ -7,23 +7,23 @@ import os
 
 #        quick N, thorough N
 RUNS = {
-    "C01": (20000, 400000),
-    "C02": (8000, 200000),
-    "C03": (12000, 300000),
-    "C04": (12000, 300000),
-    "C05": (4000, 100000),
-    "C06": (4000, 100000),
-    "C08": (10000, 250000),
-    "C09": (8000, 150000),
-    "C10": (14000, 300000),
-    "C12": (5000, 120000),
-    "C13": (6000, 150000),
-    "C14": (5000, 120000),
-    "C15": (3500, 80000),
-    "C16": (4000, 100000),
-    "C17": (6000, 100000),
-    "C18": (600, 15000),
-    "C19": (5000, 120000),
+    "C01": (20000, 240000),
+    "C02": (8000, 96000),
+    "C03": (12000, 144000),
+    "C04": (12000, 144000),
+    "C05": (4000, 48000),
+    "C06": (4000, 48000),
+    "C08": (10000, 120000),
+    "C09": (8000, 96000),
+    "C10": (14000, 168000),
+    "C12": (5000, 60000),
+    "C13": (6000, 72000),
+    "C14": (5000, 60000),
+    "C15": (3500, 42000),
+    "C16": (4000, 48000),
+    "C17": (6000, 72000),
+    "C18": (600, 7200),
+    "C19": (5000, 60000),
 }
 CAP = {"quick": 900.0, "thorough": 5400.0}
 
